@@ -2240,6 +2240,58 @@ func flagRules(r *Report, typ, setter, getter string, unsetters ...string) {
 				}
 			}
 		}
+		// when the mark is a bit of a shared word, the getter reports that bit whatever the other bits
+		// are: evaluated for the word holding the bit alone, the bit with others, the others, nothing
+		for _, fw := range flagWrites(sf, true) {
+			if !shared[fw.fo] || fw.fn != sf {
+				continue
+			}
+			b, isB := fw.val.(*ssa.BinOp)
+			if !isB || b.Op != token.OR {
+				continue
+			}
+			bit, isK := constInt(b.Y)
+			if !isK {
+				bit, isK = constInt(b.X)
+			}
+			if !isK || bit == 0 {
+				continue
+			}
+			others := int64(7) &^ bit
+			if others == 0 {
+				others = bit << 1
+			}
+			okBit, evald := true, true
+			for _, tc := range []struct {
+				word int64
+				want bool
+			}{{bit, true}, {bit | others, true}, {others, false}, {0, false}} {
+				ev := &miniEval{leaf: func(v ssa.Value) (int64, bool) {
+					if ld, isLd := v.(*ssa.UnOp); isLd && ld.Op == token.MUL {
+						if fa, isFa := ld.X.(*ssa.FieldAddr); isFa && fieldObj(fa) == fw.fo {
+							return tc.word, true
+						}
+					}
+					return 0, false
+				}}
+				for _, ret := range returns(gf) {
+					if len(ret.Results) == 0 {
+						continue
+					}
+					for _, rv := range retVals(ret, 0) {
+						got, okE := ev.Bool(rv)
+						if !okE {
+							evald = false
+						} else if got != tc.want {
+							okBit = false
+						}
+					}
+				}
+			}
+			if evald {
+				r.Decide("table", fmt.Sprintf("(*M.%s).%s reports its bit whatever the other bits of the word are", typ, getter), okBit, "evaluated for the bit alone, with others, the others alone, and zero", "the getter compares the whole word instead of testing its bit: as soon as another mark is set on the same exchange (an API request that is also a Via loop, say) the mark reads as not set", gf.Pos())
+			}
+		}
 		r.Decide("flow", fmt.Sprintf("(*M.%s).%s reports its receiver's own mark only", typ, getter), foreign == "", "every value returned is computed from fields of the receiver", "the getter also answers from something that is not a field of its receiver ("+foreign+"): a mark put on one exchange (or connection) is reported for others that never received it", gf.Pos())
 	}
 	isRMW := func(fw flagWrite) bool {
@@ -2884,6 +2936,9 @@ func errorsReturnedRule(r *Report, f *ssa.Function, exact bool) {
 		if want[nm] {
 			seen[nm] = true
 			r.Decide("flow", fmt.Sprintf("%s: error of %s#%d reaches the function's result", fnName(f), nm, ordinalAny(f, c)), reaches, "the error value flows into a return", "the error is dropped (logged at most): the caller carries on as if the step had succeeded", c.Pos())
+		} else if exact && reaches && newHelperWithin(w, c, want, norm, seen, 0) {
+			// a helper that is not part of the pinned tree and can only fail where the function itself
+			// was allowed to fail: the failures are the same, one level down
 		} else if exact && reaches {
 			r.Fail("flow", fmt.Sprintf("%s: error of %s#%d is not among the failures the function reports", fnName(f), nm, ordinalAny(f, c)), "the function now fails on an error it used to tolerate: its caller (the proxy) turns that into a Warning header or an aborted step for traffic that passed before", nil, c.Pos())
 		}
@@ -3940,4 +3995,51 @@ func effectiveCalls(f *ssa.Function, names ...string) []effCall {
 		}
 	}
 	return out
+}
+
+// newHelperWithin: the call goes to a module function that the pinned inventory
+// does not know (a helper introduced by a refactoring), and every fallible
+// call inside it is a callee the caller was already allowed to fail on (or
+// another such helper, to a small depth).
+func newHelperWithin(w *World, c ssa.CallInstruction, want map[string]bool, norm func(string) string, seen map[string]bool, depth int) bool {
+	callee := c.Common().StaticCallee()
+	if callee == nil || callee.Blocks == nil || callee.Pkg == nil || !strings.HasPrefix(callee.Pkg.Pkg.Path(), M) || depth > 2 {
+		return false
+	}
+	obj, ok := callee.Object().(*types.Func)
+	if !ok {
+		return false
+	}
+	if _, isPinned := loadInventory().Funcs[funcKey(obj)]; isPinned {
+		return false
+	}
+	for _, in := range instrs(callee) {
+		ci, isC := in.(ssa.CallInstruction)
+		if !isC {
+			continue
+		}
+		// a deferred call's error is discarded, and so is a result nobody looks at
+		if _, isD := in.(*ssa.Defer); isD {
+			continue
+		}
+		if v, isV := in.(ssa.Value); isV && (v.Referrers() == nil || len(*v.Referrers()) == 0) {
+			continue
+		}
+		sig := ci.Common().Signature()
+		if sig == nil || sig.Results().Len() == 0 || !isErrorType(sig.Results().At(sig.Results().Len()-1).Type()) {
+			continue
+		}
+		nm := norm(calleeName(ci))
+		if nm == "fmt.Errorf" || nm == "errors.New" {
+			continue
+		}
+		if want[nm] {
+			seen[nm] = true
+			continue
+		}
+		if !newHelperWithin(w, ci, want, norm, seen, depth+1) {
+			return false
+		}
+	}
+	return true
 }
